@@ -6,7 +6,7 @@ import warnings
 
 import anyio
 
-from .common import FAIL, OK, STUBS_COMMON, BodyErr, DeviationTape, Harness, P, flatten, guard, pick, run  # noqa: F401
+from .common import FAIL, OK, STUBS_COMMON, BodyBase, BodyErr, DeviationTape, Harness, P, flatten, guard, pick, run  # noqa: F401
 
 import symsched
 import asphalt.core._component as _cm  # noqa: E402
@@ -26,6 +26,7 @@ ENDINGS = [
     "CLI run() raises", "child fails while being created", "child fails in prepare()", "child fails in start()", "root fails in start()",
     "startup times out", "SIGINT during startup", "SIGTERM during startup", "SIGTERM after startup (non-CLI)", "SIGINT after startup (non-CLI)",
     "service task crashes during startup", "service task crashes after startup (non-CLI)", "service task crashes while CLI run() is running",
+    "child start() raises a BaseException subclass",
 ]
 RUN_RESULTS = {0: None, 1: 0, 2: 5, 3: 127, 4: 128, 5: -1, 6: "x", 7: 0.0, 8: "", 9: [], 10: True}
 
@@ -44,7 +45,7 @@ def expected_outcome(ending):
         return [("exit", 1)]  # True is an int with value 1: SystemExit(1) either way
     if ending == 11:
         return [("raise", "BodyErr")]
-    if ending in (12, 13, 14, 15, 16, 17, 18):
+    if ending in (12, 13, 14, 15, 16, 17, 18, 24):
         return [("exit", 1)]
     if ending in (19, 20):
         return [("return",)]
@@ -98,6 +99,8 @@ def build_app(ending, nchild, when, log, ctl):
             await anyio.sleep(0)
             if self.fail == "starting":
                 raise boom
+            if self.fail == "starting-base":
+                raise BodyBase("not an Exception")
             if self.stall:
                 await anyio.sleep_forever()
             td(f"child{self.idx}.start2")
@@ -121,6 +124,8 @@ def build_app(ending, nchild, when, log, ctl):
                         kw["fail"] = "preparing"
                     elif ending == 14:
                         kw["fail"] = "starting"
+                    elif ending == 24:
+                        kw["fail"] = "starting-base"
                     elif ending == 16:
                         kw["stall"] = True
                 self.add_component(f"c{i}", Child, idx=i, **kw)
@@ -135,6 +140,8 @@ def build_app(ending, nchild, when, log, ctl):
             td("root.start")
             if ending == 15 or (ending in (12, 13, 14) and nchild == 0):
                 raise boom
+            if ending == 24 and nchild == 0:
+                raise BodyBase("not an Exception")
             if ending == 16 and nchild == 0:
                 await anyio.sleep_forever()
             if ending in (17, 18):
